@@ -244,8 +244,11 @@ type runner struct {
 	comp   Component
 	drv    *Driver
 	sum    *Summary
-	seen   map[string]bool
-	maxMis int
+	seen    map[string]bool
+	maxMis  int
+	wantKey string
+	keyed   map[string]bool
+	unkeyed int
 }
 
 func (r *runner) modelOut(c Case) []string {
@@ -260,11 +263,22 @@ func (r *runner) modelOut(c Case) []string {
 	return res[0]
 }
 
-// fails reports whether the case still shows a failure of the given kind.
+// findingKey extracts the "[key=…]" prefix an oracle puts on failures of a recorded class.
+func findingKey(why string) string {
+	if strings.HasPrefix(why, "[key=") {
+		if i := strings.IndexByte(why, ']'); i > 0 {
+			return why[5:i]
+		}
+	}
+	return ""
+}
+
+// fails reports whether the case still shows a failure of the given kind (and, for oracle failures, of the same class).
 func (r *runner) fails(c Case, kind string) bool {
 	impl := safeImpl(r.comp, c)
 	if kind == "oracle" {
-		return r.comp.Oracle(c, impl) != ""
+		w := r.comp.Oracle(c, impl)
+		return w != "" && findingKey(w) == r.wantKey
 	}
 	return !equalLines(impl, r.modelOut(c))
 }
@@ -325,8 +339,21 @@ func cloneCase(c Case) Case {
 }
 
 func (r *runner) record(c Case, kind, why string) {
-	if len(r.sum.Mismatches) >= r.maxMis {
+	r.wantKey = ""
+	if kind == "oracle" {
+		r.wantKey = findingKey(why)
+		if r.wantKey != "" { // one witness per recorded class is enough
+			if r.keyed[r.wantKey] {
+				return
+			}
+			r.keyed[r.wantKey] = true
+		}
+	}
+	if r.wantKey == "" && r.unkeyed >= r.maxMis {
 		return
+	}
+	if r.wantKey == "" {
+		r.unkeyed++
 	}
 	small := r.shrink(c, kind)
 	if !r.fails(small, kind) {
@@ -390,7 +417,7 @@ func (r *runner) flush(batch []Case) {
 
 func runComponent(comp Component, driverPath string, seed int64, n int, replay *Case) *Summary {
 	sum := &Summary{Component: comp.Name(), Seed: seed, Dist: map[string]int{}}
-	r := &runner{comp: comp, sum: sum, seen: map[string]bool{}, maxMis: 5}
+	r := &runner{comp: comp, sum: sum, seen: map[string]bool{}, maxMis: 5, keyed: map[string]bool{}}
 	if driverPath != "" {
 		d, err := StartDriver(driverPath)
 		if err != nil {
